@@ -69,6 +69,11 @@ Theorem C14_upto_returns_moved : forall c s m rk a b, wf14 c = true -> is_exact 
   exec14 c = Val ((s, m), (rk, a, b)) -> rk <> 1 /\ (rk = 0 -> a = moved_of c s).
 Proof. exact upto_returns_moved_lemma. Qed.
 
+(* no operation moves more than the requested count *)
+Theorem C14_moved_le_count : forall c s m rc, wf14 c = true -> exec14 c = Val ((s, m), rc) ->
+  moved_of c s <= c_count c.
+Proof. exact moved_le_count_lemma. Qed.
+
 (* every operation: host bytes outside the transferred prefix are unchanged *)
 Theorem C14_frame : forall c s m rc, wf14 c = true -> exec14 c = Val ((s, m), rc) ->
   forall j, (forall i, i < moved_of c s -> idx_of (c_target c) (c_addr c + i) <> Some j) ->
@@ -96,4 +101,5 @@ Print Assumptions C14_consumed_is_stored.
 Print Assumptions C14_handed_is_next.
 Print Assumptions C14_exact_ok_iff_full.
 Print Assumptions C14_upto_returns_moved.
+Print Assumptions C14_moved_le_count.
 Print Assumptions C14_frame.
